@@ -229,6 +229,32 @@ fn parsed_after(kind: rspirv::grammar::OperandKind, value: u32) -> String {
     }
 }
 
+/// parse ONE operand of the named kind from the given words with the real parser, then re-assemble what was delivered
+pub fn parse_assemble_kind(kind: &str, w0: u32, w1: u32) -> String {
+    use rspirv::binary::Assemble;
+    use rspirv::grammar as g;
+    let k = match kind {
+__KIND_ARMS__
+        _ => return "{\\"error\\": \\"unknown operand kind\\"}".to_string(),
+    };
+    let ops: &'static [g::LogicalOperand] = Box::leak(Box::new([g::LogicalOperand { kind: k, quantifier: g::OperandQuantifier::One }]));
+    let entry: &'static g::Instruction<'static> = Box::leak(Box::new(g::Instruction {
+        opname: "X", opcode: spirv::Op::Nop, capabilities: &[], extensions: &[], operands: ops }));
+    for n in 1..=2usize {
+        let words: Vec<u32> = [w0, w1][..n].to_vec();
+        let bytes: Vec<u8> = words.iter().flat_map(|w| w.to_le_bytes().to_vec()).collect();
+        let mut c = crate::consumer::Scripted::new(vec![]);
+        let (r, _off, _lim) = rspirv::binary::verif::parse_operands(&bytes, &mut c, words.len(), entry);
+        if let Ok(inst) = r {
+            let mut out: Vec<u32> = vec![];
+            for o in &inst.operands { o.assemble_into(&mut out); }
+            return format!("{{\\"ok\\": true, \\"consumed\\": {}, \\"operands\\": {}, \\"words\\": [{}]}}", n,
+                crate::ops::jstr(&format!("{:?}", inst.operands)), out.iter().map(|w| w.to_string()).collect::<Vec<_>>().join(", "));
+        }
+    }
+    "{\\"ok\\": false}".to_string()
+}
+
 fn kinds_json(v: Vec<rspirv::grammar::LogicalOperand>) -> String {
     format!("[{}]", v.iter().map(|o| format!("\\"{:?}\\"", o.kind)).collect::<Vec<_>>().join(", "))
 }
@@ -247,6 +273,11 @@ fn kinds_json(v: Vec<rspirv::grammar::LogicalOperand>) -> String {
     o.append('        _ => "{\\"error\\": \\"unknown kind\\"}".to_string(),\n    }\n}')
     import genreplay
     o.append(genreplay.generate())
+    # operand kinds of the grammar (for parse_assemble_kind)
+    from rtok import read_enums
+    kinds_ = [n for n, _d, _p in read_enums(tables.src("rspirv/grammar/autogen_table.rs"))["OperandKind"]["variants"]]
+    arms_ = "\n".join('        "%s" => g::OperandKind::%s,' % (k, k) for k in kinds_)
+    o = [x.replace("__KIND_ARMS__", arms_) for x in o]
     txt = "\n".join(o) + "\n"
     if not os.path.exists(path) or open(path).read() != txt:
         with open(path, "w") as f:
